@@ -935,6 +935,10 @@ var panicAllowShape = map[string][]string{
 	"proxycore|index:[]*ClientConn[var]": {"proxycore.connectPool$1:index:*<*[]*proxycore.ClientConn>[idx]",
 		"(*proxycore.connPool).stayConnected:index:p.conns[idx]"},
 	"proxycore|index:[]error[var]": {"proxycore.connectPool$1:index:*errs[idx]"},
+	// the two reviewed slices of a frame body (bounded by positions of the body's own reader, see
+	// C11/C17.reader-position) written through a shared helper of the reader
+	"codecs|slice:[]byte[var:var]": {"(*codecs.FrameBodyReader).BytesSince:slice:r.Body[pos:(*github.com/datastax/cql-proxy/codecs.FrameBodyReader).Position()]"},
+	"codecs|slice:[]byte[var:]":    {"(*codecs.FrameBodyReader).RemainingBytes:slice:r.Body[(*github.com/datastax/cql-proxy/codecs.FrameBodyReader).Position():]"},
 	"proxycore|index:[]*proxycore.ClientConn[var]": {"proxycore.connectPool$1:index:*<*[]*proxycore.ClientConn>[idx]",
 		"(*proxycore.connPool).stayConnected:index:p.conns[idx]"},
 }
